@@ -47,7 +47,7 @@ def check_tables(cfg, stock, pre):
     require(sbc.shape == (n,) + S.shape and obc.shape == (n,) + S.shape, "cohort-table-shape", f"{sbc.shape} {obc.shape}")
     dtc = dt.reshape((n,) + (1,) * (S.ndim - 1))
     scale = float(np.max(np.abs(S)) + np.max(dtc * (np.abs(I) + np.abs(O))))
-    tol = 1e-9 * scale  # relative: flows may be in any unit
+    tol = 1e-9 * scale + 1e-290  # relative (flows may be in any unit); floor for subnormals
     require(np.max(np.abs(sbc.sum(axis=1) - S)) <= tol, f"{pre}stock-not-sum-of-cohorts-{kind}-{gk}", f"max diff {np.max(np.abs(sbc.sum(axis=1) - S)):.3g}; grid {cfg['grid']}")
     require(np.max(np.abs(obc.sum(axis=1) - O)) <= tol, f"{pre}outflow-not-sum-of-cohorts-{kind}-{gk}", f"max diff {np.max(np.abs(obc.sum(axis=1) - O)):.3g}")
     entered = dtc * I  # whole-interval inflow per cohort
